@@ -612,6 +612,21 @@ def rule_part(ctx: Ctx) -> RuleReport:
             rep.ok({"list_files_filtered": "files of overlapping folder_paths are reported once (seen item ids)"})
         else:
             rep.fail(Finding("C18-PART", CL, lf.qual, "requested folders walked without de-duplication", "each requested folder is walked on its own and everything found is yielded: with overlapping folder_paths ('Reports' and 'Reports/2024') the files of the inner folder are returned twice", line=l.lineno))
+    # no requested folder is skipped because its *text* begins like another one: 'Reports-Archive' and 'Reports 2023' are siblings of
+    # 'Reports', not folders below it -- a containment test on paths compares whole segments (prefix + '/')
+    for l in floops:
+        for cnt in [c for c in ast.walk(l) if isinstance(c, ast.Continue)]:
+            holder = next((i for i in ast.walk(l) if isinstance(i, ast.If) and cnt in i.body), None)
+            if holder is None:
+                continue
+            for sw in [c for c in ast.walk(holder.test) if isinstance(c, ast.Call) and isinstance(c.func, ast.Attribute) and c.func.attr == "startswith" and c.args]:
+                a = sw.args[0]
+                bounded = (isinstance(a, ast.BinOp) and isinstance(a.op, ast.Add) and isinstance(a.right, ast.Constant) and a.right.value == "/") or (isinstance(a, ast.JoinedStr) and a.values and isinstance(a.values[-1], ast.Constant) and str(a.values[-1].value).endswith("/")) \
+                    or isinstance(a, ast.Constant)
+                if bounded:
+                    rep.ok({"list_files_filtered": f"folder skipped on a whole-segment prefix: {short(sw, 50)}"})
+                else:
+                    rep.fail(Finding("C18-PART", CL, lf.qual, "requested folder skipped on a text prefix: " + anorm(sw, lf.node), f"a requested folder is skipped when `{short(sw, 60)}`: the test compares characters, not path segments, so after 'Reports' was walked the siblings 'Reports-Archive' and 'Reports 2023' are skipped as if they lay below it and their files are missing from the listing", line=sw.lineno))
     # a listing restricted to a folder reports files under the path the caller asked for (the folder item's own `name` is only its
     # last component)
     wf = methods.get("_walk_and_filter")
